@@ -80,7 +80,7 @@ func cancelScenario(name string, d *shapeDesc, kinds []int, deadline, before, as
 	var cs *cancelState
 	body := func() {
 		if root == nil {
-			g := &shapeGen{leafKinds: kinds}
+			g := &shapeGen{leafKinds: kinds, counter: rotationOf(name)}
 			root = g.build(d, "r")
 			menu = cancelMenu(collectActions(root), 2)
 		}
